@@ -5,7 +5,7 @@ package loadaware
 // feeds it NodeMetric objects through a real NodeMetric lister over an indexer the harness fills, node / pod objects
 // through GetPodsAssignedToNodeFunc, and a recording framework.Evictor whose Filter follows the per-pod flag; it then
 // runs the REAL Balance for several successive rounds per segment (the anomaly detectors live inside the plugin) and logs
-//   reset {cfg, names}   round {nodes, pods}   evict {pod, ok}*   end
+//   reset {cfg, names}   round {nodes, pods}   evict {pod, ok}*   end {obs: calls, pods}
 // There is no oracle here: specs/Rebalance/RebalanceTrace.tla recomputes the usage / threshold table from the logged
 // inputs and judges every evict event. The generators keep a shadow of the inputs only to steer generation
 // (boundary usages, float-insensitive thresholds), never to judge.
@@ -84,6 +84,7 @@ type c18Round struct {
 	in     c18Ev
 	byNode map[string][]*corev1.Pod
 	calls  int
+	called []string // pods handed to Evict, in order
 	gone   []string // successfully evicted, in order
 }
 
@@ -102,6 +103,7 @@ func (e *c18Evictor) PreEvictionFilter(pod *corev1.Pod) bool { return true }
 func (e *c18Evictor) Evict(ctx context.Context, pod *corev1.Pod, opts framework.EvictOptions) bool {
 	ok := e.h.cur.in.Pods[pod.Name].EOK
 	e.h.cur.calls++
+	e.h.cur.called = append(e.h.cur.called, pod.Name)
 	if ok {
 		e.h.cur.gone = append(e.h.cur.gone, pod.Name)
 	}
@@ -220,7 +222,7 @@ func c18SortedKeys[V any](m map[string]V) []string {
 
 // executes one Balance round on the real plugin; returns the pods the evictor reported as evicted
 func (h *c18Harness) runRound(in c18Ev) []string {
-	r := &c18Round{in: in, byNode: map[string][]*corev1.Pod{}}
+	r := &c18Round{in: in, byNode: map[string][]*corev1.Pod{}, called: []string{}}
 	h.cur = r
 	now := time.Now()
 	var nodes []*corev1.Node
@@ -278,7 +280,7 @@ func (h *c18Harness) runRound(in c18Ev) []string {
 		h.rec.Emit(vu.Ev{"op": "panic", "msg": msg})
 		h.stats["panics"]++
 	}
-	h.rec.Emit(vu.Ev{"op": "end", "calls": r.calls})
+	h.rec.Emit(vu.Ev{"op": "end", "obs": vu.Ev{"calls": r.calls, "pods": r.called}})
 	h.stats["rounds"]++
 	h.stats["evictCalls"] += r.calls
 	if r.calls > 0 {
@@ -771,9 +773,9 @@ func TestVerifC18(t *testing.T) {
 		}
 	}
 	c18Enumerated(h)
-	n := 1500
+	n := 4000
 	if vu.Thorough() {
-		n = 24000
+		n = 70000
 	}
 	n = vu.EnvInt("VERIF_C18_SEGMENTS", n)
 	rng := vu.Rand(18)
